@@ -2,13 +2,13 @@
 
 use crate::engine::{from_case, to_case, Outcome, Plan, Prop, Tier};
 use crate::memsrc::{MemSource, OwnedEntry, Variant};
-use assets_manager::{loader::Loader, Asset, AssetCache, AssetReadGuard, BoxedError, Handle};
+use assets_manager::{loader::Loader, AnyCache, Asset, AssetCache, AssetReadGuard, BoxedError, Compound, Handle, ReloadId, SharedString};
 use proptest::prelude::*;
 use serde::{Deserialize, Serialize};
 use serde_json::Value;
 use std::borrow::Cow;
-use std::sync::atomic::{AtomicBool, AtomicU64, Ordering::SeqCst};
-use std::sync::Mutex;
+use std::sync::atomic::{AtomicBool, AtomicU64, AtomicUsize, Ordering::SeqCst};
+use std::sync::{Arc, Mutex};
 
 const MAGIC: u64 = 0x5EED_C0DE_F00D_BA5E;
 
@@ -34,6 +34,9 @@ macro_rules! big {
         impl Loader<$name> for WLoader {
             fn load(content: Cow<[u8]>, _: &str) -> Result<$name, BoxedError> {
                 let v: u64 = std::str::from_utf8(&content)?.trim().parse()?;
+                if v >= RACE_BASE {
+                    race_rendezvous();
+                }
                 Ok(<$name as Words>::make(v))
             }
         }
@@ -45,6 +48,54 @@ macro_rules! big {
 }
 
 pub struct WLoader;
+
+/// Versions from here on belong to the first-load race: their loaders wait (bounded) for each other,
+/// so that every racer is past its cache miss before any of them inserts.
+const RACE_BASE: u64 = 1 << 40;
+static RACE_EXPECTED: AtomicUsize = AtomicUsize::new(0);
+static RACE_ARRIVED: AtomicUsize = AtomicUsize::new(0);
+fn race_rendezvous() {
+    let exp = RACE_EXPECTED.load(SeqCst);
+    RACE_ARRIVED.fetch_add(1, SeqCst);
+    let mut spins = 0u32;
+    while RACE_ARRIVED.load(SeqCst) < exp && spins < 400_000 {
+        spins += 1;
+        if spins % 64 == 0 {
+            std::thread::yield_now();
+        } else {
+            std::hint::spin_loop();
+        }
+    }
+}
+
+/// A file of the second cache whose change makes `Cross` reload.
+pub struct Tick(pub u64);
+impl Loader<Tick> for WLoader {
+    fn load(content: Cow<[u8]>, _: &str) -> Result<Tick, BoxedError> {
+        Ok(Tick(std::str::from_utf8(&content)?.trim().parse()?))
+    }
+}
+impl Asset for Tick {
+    const EXTENSION: &'static str = "tk";
+    type Loader = WLoader;
+}
+type CrossFn = Arc<dyn Fn() + Send + Sync>;
+static CROSS: Mutex<Option<CrossFn>> = Mutex::new(None);
+static CROSS_RUNS: AtomicU64 = AtomicU64::new(0);
+/// A compound of a second cache whose load function reads a handle of the first cache: when it is
+/// reloaded, that read happens on the second cache's reloader thread.
+pub struct Cross;
+impl Compound for Cross {
+    fn load(cache: AnyCache, _id: &SharedString) -> Result<Self, BoxedError> {
+        let _ = cache.load::<Tick>("tick")?.read().0;
+        let f = CROSS.lock().unwrap_or_else(|e| e.into_inner()).clone();
+        if let Some(f) = f {
+            f();
+        }
+        Ok(Cross)
+    }
+}
+
 big!(W8, 8);
 big!(W512, 512);
 big!(W8192, 8192);
@@ -81,6 +132,13 @@ pub struct Case {
     size: u8,
     readers: Vec<Style>,
     reloads: u16,
+    /// 2..: that many threads race for the first load of one asset (rendezvous inside the loader) before any hot_reload call
+    #[serde(default)]
+    first_load_race: u8,
+    /// 1..: a compound of a second hot-reloaded cache reads the handle (guard held over that many yields) and is
+    /// reloaded continuously, i.e. the read runs on the other cache's reloader thread
+    #[serde(default)]
+    cross: u8,
 }
 
 struct Shared {
@@ -213,17 +271,114 @@ fn reader<T: Words + Asset>(h: &Handle<T>, style: Style, sh: &Shared) {
     }
 }
 
+fn first_load_race<T: Words + Asset>(c: &Case, cache: &AssetCache<MemSource>, src: &MemSource, out: &mut Outcome) {
+    let n = c.first_load_race as usize;
+    src.tree().put("race", "w", RACE_BASE.to_string().into_bytes(), Variant::Buffer);
+    RACE_EXPECTED.store(n, SeqCst);
+    RACE_ARRIVED.store(0, SeqCst);
+    let barrier = super::common::SpinBarrier::new(n);
+    let mut seen: Vec<(Result<u64, String>, ReloadId)> = Vec::new();
+    std::thread::scope(|s| {
+        let joins: Vec<_> = (0..n)
+            .map(|i| {
+                let barrier = &barrier;
+                s.spawn(move || {
+                    barrier.wait();
+                    // every racer reads different bytes
+                    src.tree().put("race", "w", (RACE_BASE + 1 + i as u64).to_string().into_bytes(), Variant::Buffer);
+                    let h = cache.load::<T>("race").expect("load race");
+                    let r = (validate(h.read().words()), h.last_reload_id());
+                    std::thread::yield_now();
+                    r
+                })
+            })
+            .collect();
+        for j in joins {
+            seen.push(j.join().expect("racer"));
+        }
+    });
+    RACE_EXPECTED.store(0, SeqCst);
+    let h = cache.get_cached::<T>("race").expect("race cached");
+    let last = (validate(h.read().words()), h.last_reload_id());
+    if let Some(bad) = seen.iter().find(|s| **s != last) {
+        out.fail(
+            "changed-outside-hot-reload",
+            format!("first-load race of {n} threads, hot_reload never called: one racer read (value {:?}, reload id {:?}) through the handle it was given, the handle now reads (value {:?}, reload id {:?})", bad.0, bad.1, last.0, last.1),
+        );
+        return;
+    }
+    if last.1 != ReloadId::NEVER || h.reloaded_global() {
+        out.fail(
+            "changed-outside-hot-reload",
+            format!("first-load race of {n} threads, hot_reload never called: the entry reports a reload (last_reload_id {:?}, expected ReloadId::NEVER)", last.1),
+        );
+        return;
+    }
+    if RACE_ARRIVED.load(SeqCst) >= 2 {
+        out.label("first-load-race");
+    }
+}
+
 fn run_sized<T: Words + Asset>(c: &Case, out: &mut Outcome) {
     let src = MemSource::new(true);
     src.tree().put("big", "w", b"0".to_vec(), Variant::Buffer);
     let cache = AssetCache::with_source(src.handle());
+    if c.first_load_race >= 2 {
+        first_load_race::<T>(c, &cache, &src, out);
+        if out.failed() {
+            return;
+        }
+    }
     let h = cache.load::<T>("big").expect("load big");
     let sh = Shared { stop: AtomicBool::new(false), started: AtomicU64::new(0), finished: AtomicU64::new(0), err: Mutex::new(None), overlaps: AtomicU64::new(0) };
     let bracket = c.readers.iter().any(|s| matches!(s, Style::Bracket));
+    // the second cache (dropped before `cache`, after its last hot_reload call returned)
+    CROSS_RUNS.store(0, SeqCst);
+    let src_a = MemSource::new(true);
+    src_a.tree().put("tick", "tk", b"0".to_vec(), Variant::Buffer);
+    let cache_a = (c.cross > 0).then(|| AssetCache::with_source(src_a.handle()));
+    if let Some(cache_a) = &cache_a {
+        let (hp, shp, yields) = (h as *const Handle<T> as usize, &sh as *const Shared as usize, c.cross);
+        let f: CrossFn = Arc::new(move || {
+            // valid for as long as the closure is installed: it is removed before `sh` and `cache` go away,
+            // and runs only inside cache_a.load / cache_a.hot_reload calls made below
+            let (h, sh) = unsafe { (&*(hp as *const Handle<T>), &*(shp as *const Shared)) };
+            let g = h.read();
+            let id0 = h.last_reload_id();
+            let v0 = validate(g.words());
+            if let Err(e) = &v0 {
+                sh.fail("torn-or-unpinned-read", format!("read made by a compound of a second cache while that cache reloads it (on its reloader thread): {e}"));
+                return;
+            }
+            for _ in 0..yields {
+                std::thread::yield_now();
+                let (v, id) = (validate(g.words()), h.last_reload_id());
+                if v != v0 || id != id0 {
+                    sh.fail("torn-or-unpinned-read", format!("read made by a compound of a second cache while that cache reloads it (on its reloader thread): value/id behind a live guard changed from ({v0:?}, {id0:?}) to ({v:?}, {id:?})"));
+                    return;
+                }
+            }
+            CROSS_RUNS.fetch_add(1, SeqCst);
+        });
+        *CROSS.lock().unwrap_or_else(|e| e.into_inner()) = Some(f);
+        let _ = cache_a.load::<Cross>("x");
+    }
     std::thread::scope(|s| {
         for style in &c.readers {
             let (sh, style) = (&sh, *style);
             s.spawn(move || reader(h, style, sh));
+        }
+        if let Some(cache_a) = &cache_a {
+            let (sh, src_a) = (&sh, &src_a);
+            s.spawn(move || {
+                let mut n = 0u64;
+                while !sh.stop.load(SeqCst) {
+                    n += 1;
+                    src_a.tree().put("tick", "tk", n.to_string().into_bytes(), Variant::Buffer);
+                    src_a.send(&OwnedEntry::File("tick".into(), "tk".into()));
+                    cache_a.hot_reload();
+                }
+            });
         }
         // the writer: version i, notify, hot_reload until applied
         for i in 1..=c.reloads as u64 {
@@ -264,12 +419,17 @@ fn run_sized<T: Words + Asset>(c: &Case, out: &mut Outcome) {
         }
         sh.stop.store(true, SeqCst);
     });
+    *CROSS.lock().unwrap_or_else(|e| e.into_inner()) = None;
+    drop(cache_a);
     if let Some((sig, what)) = sh.err.lock().unwrap().take() {
         out.fail(sig, what);
     }
     if sh.overlaps.load(SeqCst) > 0 {
         out.nontrivial = true;
         out.label("read-overlapped-reloads");
+    }
+    if CROSS_RUNS.load(SeqCst) >= 3 {
+        out.label("read-on-other-cache-reloader-thread");
     }
 }
 
@@ -282,7 +442,9 @@ impl Prop for C07 {
 
     fn rule(&self) -> String {
         "cases = (value size 64 B / 4 KiB / 64 KiB of self-checking words, 1..7 reader threads of styles {short read, guard held across k yields, mapped guard, try_map guard, copied(), polling watcher, in-flight bracket sampler}, \
-         30..2000 reloads driven by one writer thread: write version i, notify, hot_reload until applied). Oracle: every read sees all words equal with a valid checksum; value and reload id are constant while a guard lives; \
+         30..2000 reloads driven by one writer thread: write version i, notify, hot_reload until applied; in a third of the cases 2..5 threads first race for the first load of one asset (rendezvous inside the loader, each reading different bytes) before any hot_reload call; \
+         in a third of the cases a compound of a SECOND hot-reloaded cache reads the handle with a guard held over 1..4 yields and is reloaded continuously, so that this read runs on the other cache's reloader thread while the first cache's reloader rewrites the value). Oracle: \
+         after the first-load race every racer's (value, reload id) equals what the handle reads afterwards and the id is ReloadId::NEVER; every read sees all words equal with a valid checksum; value and reload id are constant while a guard lives; \
          versions never go back; after the k-th true from ReloadWatcher::reloaded the value read is at least version k; two samples taken while started == finished hot_reload counters are equal; when hot_reload returns with the id advanced the writer reads the new version. \
          non-trivial = some reader saw at least two different versions (its reads overlapped reloads); distinct = different canonical JSON"
             .into()
@@ -316,7 +478,9 @@ impl Prop for C07 {
             2 => Just(Style::Watcher),
             2 => Just(Style::Bracket),
         ];
-        (0u8..3, prop::collection::vec(style, 1..7), 30u16..max).prop_map(|(size, readers, reloads)| to_case(&Case { size, readers, reloads })).boxed()
+        (0u8..3, prop::collection::vec(style, 1..7), 30u16..max, prop_oneof![2 => Just(0u8), 1 => 2u8..6], prop_oneof![2 => Just(0u8), 1 => 1u8..5])
+            .prop_map(|(size, readers, reloads, first_load_race, cross)| to_case(&Case { size, readers, reloads, first_load_race, cross }))
+            .boxed()
     }
 
     fn run(&self, case: &Value) -> Outcome {
@@ -343,14 +507,14 @@ impl Prop for C07 {
     }
 
     fn required_labels(&self) -> Vec<&'static str> {
-        vec!["read-overlapped-reloads", "held-guard", "copied", "watcher", "bracket"]
+        vec!["read-overlapped-reloads", "held-guard", "copied", "watcher", "bracket", "first-load-race", "read-on-other-cache-reloader-thread"]
     }
 }
 
 /// A polling-reader race reused by C06: `ReloadWatcher::reloaded(); read()` against a stream of reloads,
 /// with a guard-holding reader widening the window between publication and installation.
 pub fn watcher_race(reloads: u16, size: u8) -> Option<(String, String)> {
-    let c = Case { size, readers: vec![Style::Watcher, Style::Held { yields: 3 }, Style::Watcher, Style::Held { yields: 1 }], reloads };
+    let c = Case { size, readers: vec![Style::Watcher, Style::Held { yields: 3 }, Style::Watcher, Style::Held { yields: 1 }], reloads, first_load_race: 0, cross: 0 };
     let mut out = Outcome::new();
     match size {
         0 => run_sized::<W8>(&c, &mut out),
